@@ -260,7 +260,7 @@ def _r18_6(prog: Program, res: Result) -> None:
         if untraced:
             worlds = pa.worlds_at(y)
             ok = bool(worlds) and all(any(world_has(w, False, lambda t, u=u: t == u or t == f"len({u}) > 0") for u in untraced) for w in worlds)
-        res.decide(ok, "R18.6", fn.loc(y), fn.fq, f"deletion of a star import: {short(y, 50)}",
+        res.decide(ok, "R18.6", fn.loc(y), fn.fq, f"{short(y, 50)} # deletion of a star import",
                    f"reached only when no undefined name was left untraced ({sorted(untraced)} empty)" if ok else
                    "star imports to which no name could be attributed are deleted even when undefined names of unknown origin remain: a name that comes from an "
                    "untraceable module (other platform, C extension, not installed) loses its binding")
